@@ -440,9 +440,9 @@ Proof.
   - destruct (g x); cbn [List.length]; lia.
 Qed.
 
-Lemma child_patch1_total c ko kn :
+Lemma child_patch1_total neg c ko kn :
   (List.length (filter (is_rule c) ko) <= 1)%nat -> (List.length (filter (is_rule c) kn) <= 1)%nat ->
-  exists p, child_patch1 c ko kn = Some p.
+  exists p, child_patch1 neg c ko kn = Some p.
 Proof.
   intros Ho Hn. unfold child_patch1.
   set (a := filter (fun r => is_rule c r && negb (mem_str r ko)) kn).
@@ -462,16 +462,22 @@ Proof.
   apply Nat.leb_le in H2. apply Nat.leb_le in H3. destruct c; [exact H2|exact H3|now exfalso].
 Qed.
 
+Lemma child_patch_g_total neg ko kn :
+  (forall c, c <> COther -> (List.length (filter (is_rule c) ko) <= 1)%nat) ->
+  (forall c, c <> COther -> (List.length (filter (is_rule c) kn) <= 1)%nat) ->
+  exists p, child_patch_g neg ko kn = Some p.
+Proof.
+  intros Ho Hn. unfold child_patch_g.
+  destruct (child_patch1_total neg CName ko kn) as (a & Ea); [apply Ho; discriminate|apply Hn; discriminate|].
+  destruct (child_patch1_total neg CDescr ko kn) as (b & Eb); [apply Ho; discriminate|apply Hn; discriminate|].
+  rewrite Ea, Eb. eexists; reflexivity.
+Qed.
+
 Lemma child_patch_total ko kn :
   (forall c, c <> COther -> (List.length (filter (is_rule c) ko) <= 1)%nat) ->
   (forall c, c <> COther -> (List.length (filter (is_rule c) kn) <= 1)%nat) ->
   exists p, child_patch ko kn = Some p.
-Proof.
-  intros Ho Hn. unfold child_patch.
-  destruct (child_patch1_total CName ko kn) as (a & Ea); [apply Ho; discriminate|apply Hn; discriminate|].
-  destruct (child_patch1_total CDescr ko kn) as (b & Eb); [apply Ho; discriminate|apply Hn; discriminate|].
-  rewrite Ea, Eb. eexists; reflexivity.
-Qed.
+Proof. exact (child_patch_g_total "undo" ko kn). Qed.
 
 Lemma nil_counts c : (List.length (filter (is_rule c) []) <= 1)%nat.
 Proof. cbn. lia. Qed.
